@@ -240,6 +240,37 @@ Fixpoint nrun (c : cfg) (sets : list (list (entry nat))) (ops : list (Z * Z * na
   end.
 Definition nest_run (c : cfg) (ops : list (Z * Z * nat)) := nrun c [] ops false.
 
+(* ------------------------------------------------------------------ specification vocabulary (Props/C40.v) *)
+(* an insertion is (start, end, value); Insert panics unless start <= end *)
+Definition valid_op (op : Z * Z * nat) : Prop := let '(a, b, _) := op in a <= b.
+(* the values of the inserted intervals containing q, in insertion order *)
+Definition naive (ops : list (Z * Z * nat)) (q : Z) : list nat :=
+  flat_map (fun op : Z * Z * nat => let '(a, b, v) := op in if (a <=? q) && (q <=? b) then [v] else []) ops.
+(* [a,b] and the interval of op have no point in common *)
+Definition disjoint_b (a b : Z) (op : Z * Z * nat) : bool := let '(a', b', _) := op in (b' <? a) || (b <? a').
+(* what each Insert of a history should report: disjoint from everything inserted before *)
+Fixpoint naive_flags (before ops : list (Z * Z * nat)) : list bool :=
+  match ops with
+  | [] => []
+  | (a, b, v) :: r => forallb (disjoint_b a b) before :: naive_flags (before ++ [(a, b, v)]) r
+  end.
+(* non-empty intervals, sorted, pairwise disjoint *)
+Fixpoint sorted_disjoint (l : list (Z * Z)) : Prop :=
+  match l with
+  | [] => True
+  | (s, e) :: r => s <= e /\ match r with [] => True | (s', _) :: _ => e < s' end /\ sorted_disjoint r
+  end.
+Definition ranges (l : list (Z * Z * list nat * nat)) : list (Z * Z) := map (fun x => (fst (fst (fst x)), snd (fst (fst x)))) l.
+Definition values_of (g : Z * Z * list nat) : list nat := snd g.
+
+(* a set of intervals is laminar: any two are disjoint or one is a strict subset of the other *)
+Definition strict_sub (x y : entry nat) : Prop := eS y <= eS x /\ eE x <= eE y /\ (eS x <> eS y \/ eE x <> eE y).
+Definition laminar_pair (x y : entry nat) : Prop :=
+  eE x < eS y \/ eE y < eS x \/ strict_sub x y \/ strict_sub y x.
+Definition laminar (s : list (entry nat)) : Prop :=
+  forall i j, (i < j < length s)%nat -> laminar_pair (nth i s (mkE 0 0 O)) (nth j s (mkE 0 0 O)).
+Definition op_entry (op : Z * Z * nat) : entry nat := let '(a, b, v) := op in mkE a b v.
+
 (* ------------------------------------------------------------------ correspondence *)
 From PV Require Import Common.Corr.
 
